@@ -685,6 +685,13 @@ package tengo
 //@ func NewCompiler
 //@   props C04
 //@   requires notrace: trace == nil
+//@   assigns typeof(SymbolTable), heapmap(map[string]*Symbol), heap(*Symbol)
+//@   ensures made{C13}: result != nil && fresh(result) && result.parent == nil && result.trace == trace
+//@   ensures given{C13}: (symbolTable != nil ==> result.symbolTable == symbolTable) && (modules != nil ==> result.modules == modules)
+//@   ensures scope0{C13,C02}: result.scopeIndex == 0 && len(result.scopes) == 1 && result.scopes[0].SourceMap != nil
+//@   ensures nonnil_st{C13}: result.symbolTable != nil
+//@   ensures nonnil_mod{C13}: result.modules != nil
+//@   ensures file{C13}: result.file == file
 
 // ---------------------------------------------------------------------------
 // Compiler.Compile: what each arm emits (C09 export, C11 variable families,
@@ -855,3 +862,13 @@ package tengo
 
 //@ func resolveAssignLHS
 //@   assigns nothing
+
+// a module compiler shares the module getter and import settings, and sees
+// only the symbol table it is given (C13)
+//@ func (*Compiler).fork
+//@   props C13
+//@   requires c.trace == nil && c.modules != nil
+//@   assigns typeof(SymbolTable), heapmap(map[string]*Symbol), heap(*Symbol)
+//@   ensures child{C13}: result != nil && fresh(result) && result.parent == c && result.modulePath == modulePath
+//@   ensures settings{C13}: result.allowFileImport == c.allowFileImport && result.modules == c.modules
+//@   ensures table{C13}: symbolTable != nil ==> result.symbolTable == symbolTable
